@@ -74,8 +74,9 @@ class RemoteError(Exception):
     pass
 
 
-def _run_worker(fn_bytes, arg_bytes_seq):
-    """Fork a worker that unpickles fn and its tasks, runs them in order, pickles every result back."""
+def _run_worker(fn_bytes, arg_bytes_seq, init_bytes=None):
+    """Fork a worker that runs the pool's initializer (if any), unpickles fn and its tasks, runs them in order and
+    pickles every result back."""
     r, w = os.pipe()
     pid = os.fork()
     if pid == 0:
@@ -83,6 +84,9 @@ def _run_worker(fn_bytes, arg_bytes_seq):
         try:
             os.close(r)
             out = []
+            if init_bytes is not None:
+                initializer, initargs = pickle.loads(init_bytes)
+                initializer(*initargs)
             try:
                 fn = pickle.loads(fn_bytes)
             except BaseException as e:       # noqa
@@ -127,10 +131,10 @@ class WorkerCache:
         self.cache = {}
         self.forks = 0
 
-    def run(self, fn_bytes, arg_bytes_seq):
-        key = (fn_bytes, tuple(arg_bytes_seq))
+    def run(self, fn_bytes, arg_bytes_seq, init_bytes=None):
+        key = (fn_bytes, tuple(arg_bytes_seq), init_bytes)
         if key not in self.cache:
-            self.cache[key] = _run_worker(fn_bytes, list(arg_bytes_seq))
+            self.cache[key] = _run_worker(fn_bytes, list(arg_bytes_seq), init_bytes)
             self.forks += 1
         return self.cache[key]
 
@@ -146,9 +150,11 @@ class SchedPool:
     log = None              # list collecting (processes, n, method) per use
     misfit = None           # set when the submitted batch did not fit the planned outcome
 
-    def __init__(self, processes=None, *a, **kw):
+    def __init__(self, processes=None, initializer=None, initargs=(), maxtasksperchild=None, context=None):
         self.processes = processes if processes else (os.cpu_count() or 1)
         self.closed = False
+        # like the real pool: every worker process runs initializer(*initargs) once before its first task
+        self.init_bytes = pickle.dumps((initializer, tuple(initargs))) if initializer is not None else None
 
     def __enter__(self):
         return self
@@ -183,7 +189,7 @@ class SchedPool:
         cache = type(self).cache or WorkerCache()
         res = {}
         for seq in workers:
-            out = cache.run(fn_bytes, [arg_bytes[t] for t in seq])
+            out = cache.run(fn_bytes, [arg_bytes[t] for t in seq], self.init_bytes)
             for t, r in zip(seq, out):
                 res[t] = r
         return res, completion
